@@ -23,6 +23,7 @@ import (
 
 	"github.com/tikv/pd/server/config"
 	"verif/harness/lib/ev"
+	"verif/harness/lib/kvx"
 	"verif/harness/lib/srv"
 	"verif/harness/lib/world"
 )
@@ -93,6 +94,32 @@ func noMixedTerm(p *worldParams) {
 	if p.Cfg.TermMode == world.TermMixed {
 		p.Cfg.TermMode = world.TermAll
 	}
+}
+
+// insertDrops inserts admin drop requests for ids seen so far at random positions.
+func insertDrops(rng *rand.Rand, snaps []*world.Snapshot, p float64) []*world.Snapshot {
+	var out []*world.Snapshot
+	var ids []uint64
+	for i, s := range snaps {
+		out = append(out, s)
+		ids = append(ids, s.R.ID)
+		if rng.Float64() < p {
+			// mostly a recently seen id (likely cached), sometimes any
+			id := ids[len(ids)-1-rng.Intn(minInt(len(ids), 8))]
+			if rng.Intn(4) == 0 {
+				id = ids[rng.Intn(len(ids))]
+			}
+			out = append(out, dropOp(i, id))
+		}
+	}
+	return out
+}
+
+func minInt(a, b int) int {
+	if a < b {
+		return a
+	}
+	return b
 }
 
 func snapsOf(plan []world.Delivery) []*world.Snapshot {
@@ -194,7 +221,31 @@ func (h *harness) seqWorld(p *worldParams, idx int) {
 	}
 	snaps := snapsOf(plan)
 	t := newLight(p.Cfg.Stores)
+	// every 5th world: the admin request "drop region from cache" between heartbeats;
+	// every 5th world: storage writes of the heartbeat handler fail (before the write / after it was
+	// applied); every 10th: both
+	xr := rand.New(rand.NewSource(p.PlanSeed ^ 0xd0d0))
+	withDrops, withFaults := idx%5 == 1 || idx%10 == 3, idx%5 == 2 || idx%10 == 3
+	if withDrops {
+		snaps = insertDrops(xr, snaps, 0.05)
+		r.Count("worlds_with_admin_drops", 1)
+	}
+	if withFaults {
+		mode := kvx.FailBefore
+		if idx%2 == 1 {
+			mode = kvx.LostAck
+		}
+		t.kv.FailAllWrites(mode, func(kind, key string) bool { return xr.Intn(100) < 10 })
+		r.Count("worlds_with_storage_faults", 1)
+	}
 	fs, st := judgeSeq(t, snaps, false)
+	if withFaults {
+		r.Count("storage_faults_injected", t.kv.Injected())
+		t.kv.ResetFaults()
+	}
+	if idx%3 == 0 && len(fs) == 0 {
+		h.reloadCheck(t, withFaults, map[string]interface{}{"world": p.describe()})
+	}
 	t.Close()
 	r.Eval(1)
 	r.Count("worlds_sequential", 1)
@@ -217,7 +268,9 @@ func (h *harness) seqWorld(p *worldParams, idx int) {
 			if i >= 10 {
 				break
 			}
-			first = append(first, fmt.Sprintf("%c %s", st.outcome[i], s.Short()))
+			if i < len(st.outcome) {
+				first = append(first, fmt.Sprintf("%c %s", st.outcome[i], s.Short()))
+			}
 		}
 		r.Sample(map[string]interface{}{"mode": "sequential", "params": p.describe(), "deliveries": len(snaps), "outcomes": string(st.outcome),
 			"first_deliveries": first, "legend": "n=new id accepted u=newer accepted e=accepted displacing other ids o=accepted same epoch s=stale vs same id v=stale vs overlap x=rejected though not stale"})
@@ -227,6 +280,11 @@ func (h *harness) seqWorld(p *worldParams, idx int) {
 
 // concWorld: one world delivered from several streams concurrently to a fresh light harness.
 func (h *harness) concWorld(p *worldParams, readers int, label string, idx int) {
+	h.concWorldD(p, readers, label, idx, 0)
+}
+
+// concWorldD: nDrops > 0 adds a goroutine issuing admin "drop region from cache" requests.
+func (h *harness) concWorldD(p *worldParams, readers int, label string, idx int, nDrops int) {
 	r := h.r
 	noMixedTerm(p)
 	w, plan, err := p.build()
@@ -236,7 +294,8 @@ func (h *harness) concWorld(p *worldParams, readers int, label string, idx int) 
 	}
 	t := newLight(p.Cfg.Stores)
 	defer t.Close()
-	res := runConcurrent(r, t, w, plan, p.Plan.Streams, readers, rand.New(rand.NewSource(p.PlanSeed^0x77)), label, map[string]interface{}{"world": p.describe()})
+	res := runConcurrentD(r, t, w, plan, p.Plan.Streams, readers, rand.New(rand.NewSource(p.PlanSeed^0x77)), label, map[string]interface{}{"world": p.describe()}, nDrops)
+	r.Count("concurrent_admin_drops", int64(len(res.drops)))
 	h.concFold(res, w, plan, label, idx, p)
 	// afterwards the up-to-date heartbeat of every live region, one at a time, judged exactly
 	finals := w.Final()
@@ -444,7 +503,7 @@ func main() {
 
 	alphaN := r.Pick(16, 96)
 	maxRegions := r.Pick(12, 64)
-	seqWorlds := r.Pick(300, 300)
+	seqWorlds := r.Pick(260, 300)
 	seqEvents := r.Pick(200, 400)
 	streams := r.Pick(4, 16)
 	concExact := r.Pick(70, 100)
@@ -458,6 +517,8 @@ func main() {
 		// first, while every shard is still in a single-threaded phase (the server needs timely CPU)
 		h.fullServer(rand.New(rand.NewSource(r.ShardSeed()^0x0f5e)), 14, 6)
 		lap("full_server")
+		h.leaderChange(rand.New(rand.NewSource(r.ShardSeed()^0x1ead)), 3)
+		lap("leader_change")
 	}
 	for i := 0; i < seqWorlds; i++ {
 		h.seqWorld(genParams(rng, alphaN, maxRegions, seqEvents, 1+rng.Intn(streams), false), i)
@@ -476,11 +537,19 @@ func main() {
 		if i%2 == 0 {
 			mr = 6
 		}
-		h.concWorld(genParams(rng, alphaN, mr, concEvents, streams, false), 3, "full-events", i)
+		nd := 0
+		if i%3 == 1 {
+			nd = 16 // heartbeats ‖ admin drop of cached regions
+		}
+		h.concWorldD(genParams(rng, alphaN, mr, concEvents, streams, false), 3, "full-events", i, nd)
 	}
 	lap("concurrent_full_events")
 	h.racingPairs(rand.New(rand.NewSource(r.ShardSeed()^0x7ace)), r.Pick(640, 3200))
 	lap("racing_pairs")
+	h.racingGrid(rand.New(rand.NewSource(r.ShardSeed()^0x961d)), r.Pick(480, 2400))
+	lap("racing_grid")
+	h.scaleWorlds(rand.New(rand.NewSource(r.ShardSeed()^0x5ca1e)), r.Pick(2000, 18000), r.Pick(120, 300), streams)
+	lap("scale")
 	h.canonicalD12()
 	r.Set("phase_seconds", phases)
 	r.Set("minimize_seconds", h.minSeconds)
